@@ -271,6 +271,24 @@ def run(tier):
         nontrivial.add(key)
     chk.cov["task_order_programs"] = len(sreqs)
 
+    # ---- (f) the state-site position table (lib/sitepos.py): a stateful call in every sub-expression slot of every form,
+    # inline and let-bound, VM against WASM with the flat state words after every sample
+    import sitepos
+    treqs = []
+    for name, inline, ref in sitepos.programs():
+        treqs.append({"id": name + "|inline", "src": inline, "n": 8, "backends": ["vm", "wasm"], "sched": True})
+        treqs.append({"id": name + "|ref", "src": ref, "n": 8, "backends": ["vm", "wasm"], "sched": True})
+    for req, out, crash in (vlib.run_harness("run", treqs, timeout_per_req=20) if on("f") else []):
+        key = vlib.canon_key(req["src"])
+        if crash or out is None:
+            chk.violation(f"runtime process died on {req['id']}: {crash}\n{req['src']}", {"src": req["src"]}, key=key)
+            continue
+        rid = f"site:{req['id']}"
+        records.append({"id": rid, "a": langpipe.side(out["vm"]), "b": langpipe.side(out["wasm"]), "cmpwords": False})
+        meta[rid] = (req["src"], {"src": req["src"]}, key)
+        nontrivial.add(key)
+    chk.cov["site_position_programs"] = len(treqs)
+
     # ---- pinned findings (specific inputs)
     pins = pinned_cases()
     preqs = []
